@@ -3,6 +3,9 @@ package kit
 import (
 	"errors"
 	"fmt"
+	"net"
+	"os"
+	"path/filepath"
 	"sync/atomic"
 	"time"
 
@@ -19,7 +22,8 @@ type Modes struct {
 	SrvDirect     bool   `json:"srv_direct,omitempty"`
 	CliPipelining bool   `json:"cli_pipelining,omitempty"`
 	CliDirect     bool   `json:"cli_direct,omitempty"`
-	Link          string `json:"link"`            // frame | bytes
+	Poll          bool   `json:"poll,omitempty"`  // unix link only
+	Link          string `json:"link"`            // frame | bytes | unix
 	Chunk         int    `json:"chunk,omitempty"` // bytes link: max bytes per read (0 = unlimited)
 	CtxBuf        bool   `json:"ctx_buf,omitempty"`
 	SrvBuf        int    `json:"srv_buf,omitempty"` // Server.SetBufferSize
@@ -31,7 +35,10 @@ func (m Modes) Valid() bool {
 	if m.Enc != "default" && HeaderEncoder(m.Enc) == nil {
 		return false
 	}
-	if m.Link != "frame" && m.Link != "bytes" {
+	if m.Link != "frame" && m.Link != "bytes" && m.Link != "unix" {
+		return false
+	}
+	if m.Poll && m.Link != "unix" {
 		return false
 	}
 	return m.Chunk >= 0 && m.SrvBuf >= 0 && m.CliBuf >= 0 && m.SrvBuf <= 8<<20 && m.CliBuf <= 8<<20
@@ -47,7 +54,12 @@ func (m Modes) Options(n *Net) *rpc.Options { return m.OptionsWith(n, BytesCodec
 
 // OptionsWith is Options with a chosen body codec constructor.
 func (m Modes) OptionsWith(n *Net, body func() rpc.Codec) *rpc.Options {
-	o := &rpc.Options{NewSocket: n.NewSocket, NewCodec: body, ClientBufferSize: m.CliBuf}
+	o := &rpc.Options{NewCodec: body, ClientBufferSize: m.CliBuf}
+	if n != nil {
+		o.NewSocket = n.NewSocket
+	} else {
+		o.Network = "unix"
+	}
 	switch m.Enc {
 	case "pb", "code", "json":
 		o.HeaderEncoder = m.Enc
@@ -97,13 +109,44 @@ func NewSessionWith(m Modes, srvCodec, cliCodec func() rpc.Codec) (*Session, err
 			return nil, errors.New("harness: server did not start listening")
 		}
 	}
+	if m.Link == "unix" {
+		s.Srv.SetPoll(m.Poll)
+		s.Addr = SockPath()
+		s.lisRet = make(chan error, 1)
+		go func() { s.lisRet <- s.Srv.ListenWithOptions(s.Addr, m.OptionsWith(nil, s.SrvCodec)) }()
+		deadline := time.Now().Add(5 * time.Second)
+		for {
+			c, err := net.Dial("unix", s.Addr)
+			if err == nil {
+				c.Close()
+				break
+			}
+			if time.Now().After(deadline) {
+				return nil, errors.New("harness: unix server did not start listening: " + err.Error())
+			}
+			time.Sleep(200 * time.Microsecond)
+		}
+	}
 	return s, nil
+}
+
+// SockPath returns a fresh short unix socket path inside the per-run build directory.
+func SockPath() string {
+	dir := os.Getenv("VERIF_BUILD")
+	if dir == "" || len(dir) > 70 {
+		dir = os.TempDir()
+	}
+	dir = filepath.Join(dir, "s")
+	os.MkdirAll(dir, 0o755)
+	p := filepath.Join(dir, fmt.Sprintf("%d-%d.sock", os.Getpid(), atomic.AddInt64(&sessSeq, 1)))
+	os.Remove(p)
+	return p
 }
 
 // Dial opens one more client connection.
 func (s *Session) Dial() (*rpc.Conn, error) {
 	var conn *rpc.Conn
-	if s.M.Link == "bytes" {
+	if s.M.Link == "bytes" || s.M.Link == "unix" {
 		var err error
 		conn, err = rpc.DialWithOptions(s.Addr, s.M.OptionsWith(s.Net, s.CliCodec))
 		if err != nil {
@@ -140,10 +183,14 @@ func (s *Session) Close() {
 		case <-time.After(5 * time.Second):
 		}
 	}
-	if s.lisRet != nil {
+	if s.lisRet != nil && !s.M.Poll {
+		// stopping a poll-mode server takes about a second (netpoll shutdown): not waited for
 		select {
 		case <-s.lisRet:
 		case <-time.After(5 * time.Second):
 		}
+	}
+	if s.M.Link == "unix" {
+		os.Remove(s.Addr)
 	}
 }
